@@ -19,6 +19,8 @@ enum { SH_ENC = 1, SH_DEC = 2, SH_BOTH = 3 };
 typedef void *(*sh_cb_t)(void *ctx, uint32_t size, uint32_t esi);
 
 int sh_create(void **ses, int codec_id, int role);
+int sh_create_v(void **ses, int codec_id, int role, uint32_t verbosity);
+int sh_set_ctrl_field_size(void *ses, uint32_t m);   /* of_set_control_parameter(OF_RS_CTRL_SET_FIELD_SIZE, UINT16 m) */
 int sh_release(void *ses);
 /* m used by RSM only, N1/seed by LDPC only */
 int sh_set_params(void *ses, int codec_id, uint32_t k, uint32_t r, uint32_t L, uint32_t m, uint32_t N1,
@@ -127,6 +129,7 @@ uint32_t shp_hweight8_table(uint8_t w);
 uint32_t shp_hweight_array(uint32_t *a, int32_t size_bits);
 /* solver: d is consumed (row pointers permuted), const_tab/var_tab as the ML decoder passes them */
 int shp_solve(void *d, void **const_tab, void **var_tab, uint32_t L);
+int shp_solve_reuse(void *d, void **const_tab, void **var_tab, uint32_t L);   /* one control block kept across calls */
 
 #ifdef __cplusplus
 }
